@@ -17,11 +17,12 @@ def sortStrings (xs : List String) : List String := xs.foldl (fun acc s => inser
 
 def hookName : Hook → String
   | .request => "request" | .prepare => "prepare" | .parse => "parse"
-  | .validation => "validation" | .execute => "execute" | .resolve => "resolve"
+  | .validation => "validation" | .execute => "execute" | .resolve => "resolve" | .subscribe => "subscribe"
 
 def hookOf? : String → Option Hook
   | "request" => some .request | "prepare" => some .prepare | "parse" => some .parse
   | "validation" => some .validation | "execute" => some .execute | "resolve" => some .resolve
+  | "subscribe" => some .subscribe
   | _ => none
 
 /-- the line the recording extension of the harness prints for an event -/
@@ -34,6 +35,9 @@ def evSexp : Ev → Option Sexp
       let p := Sexp.list (s.path.map PathSeg.toSexp)
       if enter then some (.list (head ++ [p, .str s.parent.toList, .str s.ret.toList]))
       else some (.list (head ++ [p]))
+    | .parse =>
+      -- the parse hook records the query text it is handed
+      if enter then some (.list (head ++ [.str s.parent.toList])) else some (.list head)
     | _ => some (.list head)
 
 def pathSeg? : Sexp → Option PathSeg
@@ -45,6 +49,8 @@ def ev? : Sexp → Option Ev
   | .list [.atom k, .atom h, i] => do
     let hk ← hookOf? h
     some (.hook (k = "e") (← asNat? i) { hook := hk })
+  | .list [.atom "e", .atom "parse", i, .str q] => do
+    some (.hook true (← asNat? i) { hook := .parse, parent := String.ofList q })
   | .list [.atom "e", .atom "resolve", i, .list p, .str pa, .str re] => do
     some (.hook true (← asNat? i) { hook := .resolve, path := ← p.mapM pathSeg?, parent := String.ofList pa, ret := String.ofList re })
   | .list [.atom "x", .atom "resolve", i, .list p] => do
@@ -222,15 +228,282 @@ def consistent (D : Model.ExecStatic.Defects) (req : CaseReq) (m : ModelOut) : B
       r.val == m.plain.res.val && r.log == m.plain.res.log &&
       ((D.ifaceErrNoPath && !D.listItemPathOverwrite) || r.errs == m.plain.res.errs)
 
+-- ------------------------------------------------------------------ stream `forms`
+
+def dynFindingId : String := "C30-dynamic-stream-query-skips-execute-hook"
+
+structure FSrc where
+  kind : String
+  doc : Doc
+  text : String
+
+def FSrc.parses (s : FSrc) : Bool := s.kind ≠ "syntax"
+def FSrc.strictValid (s : FSrc) : Bool := s.kind = "valid" || s.kind = "unknown-op"
+
+def src? : Sexp → Option FSrc
+  | .list [.atom "src", .atom k, d, .str t] => do some { kind := k, doc := ← Decode.doc? d, text := String.ofList t }
+  | _ => none
+
+structure FReq where
+  form : String
+  src : FSrc
+  pre : Option FSrc
+  opName : Option String
+  vars : List (String × GValue)
+  w : World
+
+def freq? : Sexp → Option FReq
+  | .list [.atom "req", .atom form, .atom _, s, p, opn, vs, w] => do
+    let pre ← (match p with
+      | .atom "none" => some none
+      | x => (src? x).map some)
+    some { form := form, src := ← src? s, pre := pre, opName := ← Decode.optStr? opn, vars := ← Decode.vars? vs,
+           w := ← Decode.world? w }
+  | _ => none
+
+inductive RwAct where
+  | text (s : FSrc) | parsed (s : FSrc) | flipvars | op (n : Option String)
+
+def rwAct? : Sexp → Option RwAct
+  | .list [.atom "text", s] => (src? s).map .text
+  | .list [.atom "parsed", s] => (src? s).map .parsed
+  | .list [.atom "flipvars"] => some .flipvars
+  | .list [.atom "op", n] => (Decode.optStr? n).map .op
+  | _ => none
+
+def rw? : Sexp → Option (Option (Nat × List RwAct))
+  | .atom "none" => some none
+  | .list (.atom "rw" :: k :: acts) => do some (some (← asNat? k, ← acts.mapM rwAct?))
+  | _ => none
+
+/-- what the rewriting prepare hook of the harness does, on the model's request -/
+def applyRw (acts : List RwAct) (r : CaseReq) : CaseReq :=
+  acts.foldl (fun r a => match a with
+    | .text s => { r with text := s.text, doc := s.doc, parses := s.parses, strictValid := s.strictValid }
+    | .parsed s => { r with pre := some { doc := s.doc, strictValid := s.strictValid } }
+    | .flipvars => { r with vars := r.vars.map (fun kv => (kv.1, match kv.2 with
+        | .bool b => GValue.bool (!b)
+        | v => v)) }
+    | .op n => { r with opName := n }) r
+
+/-- the model's request for a request of the harness: its FORM decides what it carries parsed -/
+def toCaseReq (S : Schema) (fast : Bool) (fuel : Nat) (q : FReq) : CaseReq :=
+  { S := S, doc := q.src.doc, opName := q.opName, vars := q.vars, w := q.w,
+    parses := q.src.parses, strictValid := q.src.strictValid, fast := fast, fuel := fuel, text := q.src.text,
+    pre := match q.form with
+      | "inspected" =>
+        -- `Request::parsed_query()` keeps the document when the text parses; an error is not kept
+        if q.src.parses then some { doc := q.src.doc, strictValid := q.src.strictValid } else none
+      | "preparsed" => q.pre.map (fun p => { doc := p.doc, strictValid := p.strictValid })
+      | _ => none }
+
+structure FOut where
+  pq : List String
+  plain : List Part
+  ext : List Part
+  trace : List Sexp
+
+def parts? (rs : List Sexp) : Option (List Part) :=
+  rs.mapM (fun r => match r with
+    | .list [.atom "r", a, b] => part? a b
+    | _ => none)
+
+def fout? (impl : String) : Option FOut :=
+  match parse impl with
+  | some (.list [.atom "out", .list (.atom "pq" :: pqs), .list (.atom "plain" :: r0), .list (.atom "ext" :: r1),
+      .list (.atom "trace" :: evs)]) => do
+    some { pq := pqs.map render, plain := ← parts? r0, ext := ← parts? r1, trace := evs }
+  | _ => none
+
+def emptyReq : CaseReq :=
+  { S := { types := [], query := "" }, doc := { ops := [], frags := [] }, opName := none, vars := [], w := { entries := [] },
+    parses := false, strictValid := false, fast := false, fuel := 0 }
+
+structure FModel where
+  plain : List Resp
+  ext : List Resp
+  trace : List Ev
+
+def fmodelRun (D : Model.ExecStatic.Defects) (X : XDefects) (P : PDefects) (api : String) (reqs : List CaseReq) (n : Nat)
+    (rw : Option (Nat × List RwAct)) : FModel :=
+  let B := caseBase D X
+  let SB := caseSBase D X
+  let f : CaseReq → CaseReq := match rw with
+    | some (_, acts) => applyRw acts
+    | none => id
+  let lfs : List (Nat × (CaseReq → CaseReq)) := (List.range n).map (fun i =>
+    (i, if (rw.map (·.1)) == some i then f else id))
+  -- the extension-free reference run of the harness rewrites the request by hand
+  let reqsP := reqs.map f
+  let reqsE := if n = 0 then reqsP else reqs
+  match api with
+  | "batch" =>
+    let p := executeBatch P B [] reqsP
+    let e := executeBatch P B (stackRw lfs) reqsE
+    { plain := p.1, ext := e.1, trace := recorded e.2 }
+  | "stream" =>
+    let p := executeStream P SB [] (reqsP.headD emptyReq)
+    let e := executeStream P SB (stackRw lfs) (reqsE.headD emptyReq)
+    { plain := p.1, ext := e.1, trace := recorded e.2 }
+  | _ =>
+    let p := executeP P B [] (reqsP.headD emptyReq)
+    let e := executeP P B (stackRw lfs) (reqsE.headD emptyReq)
+    { plain := [p.1], ext := [e.1], trace := recorded e.2 }
+
+def showParts (rs : List Resp) : String :=
+  String.intercalate " ; " (rs.map (fun r => let p := (modelPart r).1; s!"data={p.data} errs={p.errs} log={p.log} kinds={p.kinds}"))
+
+def showFModel (m : FModel) : String :=
+  s!"plain [{showParts m.plain}] | ext [{showParts m.ext}] | trace={(m.trace.filterMap evSexp).map render}"
+
+def partsAgree : List Resp → List Part → Bool
+  | [], [] => true
+  | r :: rs, p :: ps => partAgrees (modelPart r) p && partsAgree rs ps
+  | _, _ => false
+
+def fagrees (m : FModel) (o : FOut) (pq : List String) : Bool :=
+  partsAgree m.plain o.plain && partsAgree m.ext o.ext && o.pq == pq &&
+  (m.trace.filterMap evSexp).map render == o.trace.map render
+
+/-- the hooks of one request / stream as extension 0 enters them: FIRST, prepare, parse, then
+    validation, then execute and only resolves (streams: one execute per event) — each stage once -/
+def stagesShape (first : Hook) (multi : Bool) (hs : List Hook) : Bool :=
+  match hs with
+  | f :: .prepare :: .parse :: rest =>
+    f == first && (match rest with
+      | [] => true
+      | .validation :: r2 => (match r2 with
+          | [] => true
+          | .execute :: r3 => r3.all (fun h => h == .resolve || (multi && h == .execute))
+          | _ => false)
+      | _ => false)
+  | _ => false
+
+/-- split before every occurrence of `h` -/
+def groupsAt (h : Hook) : List Hook → List (List Hook)
+  | [] => []
+  | x :: xs =>
+    match groupsAt h xs with
+    | [] => [[x]]
+    | g :: gs => if (match g with | y :: _ => y == h | [] => false) then [x] :: g :: gs else (x :: g) :: gs
+
+def lifecycleOKF (api : String) (n : Nat) (t : List Ev) (nResp : Nat) (logLen : Nat) : Bool :=
+  if n = 0 then true
+  else
+    let sites := (t.filter (isEnter 0)).filterMap (fun e => match e with
+      | .hook _ _ s => some s
+      | _ => none)
+    let hooks := sites.map (·.hook)
+    let fieldSites := sites.filter (fun s => s.hook == .resolve && (match s.path.getLast? with
+      | some (.key _) => true
+      | _ => false))
+    let executes := (hooks.filter (· == .execute)).length
+    fieldSites.length == logLen &&
+    (match api with
+     | "stream" => stagesShape .subscribe true hooks && (executes == 0 || executes == nResp)
+     | _ =>
+       let gs := groupsAt .request hooks
+       gs.length == nResp && gs.all (stagesShape .request false) &&
+       (match t.getLast? with
+        | some (.hook false 0 s) => s.hook == .request
+        | _ => false))
+
+def fholds (api : String) (n : Nat) (o : FOut) (t : List Ev) : Bool :=
+  o.plain == o.ext && nestedOK n t && lifecycleOKF api n t o.ext.length ((o.ext.map (·.log.length)).sum)
+
+def fconsistent (D : Model.ExecStatic.Defects) (api : String) (reqs : List CaseReq) (m : FModel) : Bool :=
+  if api == "stream" then true
+  else (reqs.zip m.plain).all (fun rp =>
+    let req := rp.1
+    let pl := rp.2
+    match pl.early with
+    | some _ => true
+    | none =>
+      -- the document that ends up executed
+      match (match req.pre with
+        | some p => some (p.doc, p.strictValid)
+        | none => if req.parses then some (req.doc, req.strictValid) else none) with
+      | none => true
+      | some (doc, sv) =>
+        if pl.res.nq ≠ 0 || !sv then true
+        else
+          let r := Model.ExecStatic.run D req.S doc req.opName req.vars req.w req.fuel
+          r.val == pl.res.val && r.log == pl.res.log &&
+          ((D.ifaceErrNoPath && !D.listItemPathOverwrite) || r.errs == pl.res.errs))
+
+def judgeForms (known : List String) (case impl : String) : JudgeOut :=
+  match parse case with
+  | some (.list [.atom "fcase", .atom backend, .atom mode, nx, .atom api, .atom _, s, rw, .list (.atom "reqs" :: rs)]) =>
+    match Decode.schema? s, asNat? nx, rw? rw, rs.mapM freq? with
+    | some S, some n, some rwSpec, some qs =>
+      let dynamic := backend == "dynamic"
+      let docs : List Doc := qs.flatMap (fun q => q.src.doc :: (match q.pre with | some p => [p.doc] | none => [])) ++
+        (match rwSpec with
+         | some (_, acts) => acts.filterMap (fun a => match a with
+            | .text s => some s.doc
+            | .parsed s => some s.doc
+            | _ => none)
+         | none => [])
+      let fuel := (docs.map Spec.Exec.fuelBound).foldl max 2
+      let reqs := qs.map (toCaseReq S (mode == "fast") fuel)
+      let reqsP := reqs.map (match rwSpec with
+        | some (_, acts) => applyRw acts
+        | none => id)
+      let pq := qs.map (fun q => if q.form == "inspected" then (if q.src.parses then "ok" else "err") else "none")
+      let pinnedX : XDefects := { plainPathSkipsLookup := known.contains findingId, itemTypeAlwaysNonNull := !dynamic }
+      let pinnedP : PDefects := { streamQuerySkipsExecuteHook := dynamic && known.contains dynFindingId }
+      let spec := fmodelRun (mkD []) {} {} api reqs n rwSpec
+      let mK := fmodelRun (mkD ["u", "s", "r", "l", "i", "m"]) pinnedX pinnedP api reqs n rwSpec
+      match fout? impl with
+      | none => .viol (showFModel mK) "unreadable implementation output"
+      | some o =>
+        match o.trace.mapM ev? with
+        | none => .viol (showFModel mK) "unreadable trace"
+        | some t =>
+          let xs : List XDefects := [pinnedX, { pinnedX with itemTypeAlwaysNonNull := !pinnedX.itemTypeAlwaysNonNull },
+            { pinnedX with plainPathSkipsLookup := !pinnedX.plainPathSkipsLookup },
+            { plainPathSkipsLookup := !pinnedX.plainPathSkipsLookup, itemTypeAlwaysNonNull := !pinnedX.itemTypeAlwaysNonNull }]
+          let ps : List PDefects := if dynamic && api == "stream"
+            then [pinnedP, { pinnedP with streamQuerySkipsExecuteHook := !pinnedP.streamQuerySkipsExecuteHook }] else [pinnedP]
+          let ons : List (List String) := [[], ["u", "s", "r", "l", "i", "m"]] ++
+            (subsets ["u", "s", "r", "l", "i", "m"]).filter (fun on => on.length ≠ 0 && on.length ≠ 6)
+          let cfgs : List (PDefects × XDefects × List String) :=
+            ps.flatMap (fun P => xs.flatMap (fun X => ons.map (fun on => (P, X, on))))
+          let hit := cfgs.find? (fun c =>
+            let m := fmodelRun (mkD c.2.2) c.2.1 c.1 api reqs n rwSpec
+            fagrees m o pq && fconsistent (mkD c.2.2) api reqsP m)
+          if fholds api n o t then
+            match hit with
+            | some _ => .ok
+            | none => .tie (showFModel mK) (showFModel spec)
+          else
+            match hit with
+            | some c =>
+              -- which of this property's toggles does the explanation need?
+              let ok := fun (P : PDefects) (X : XDefects) =>
+                let m := fmodelRun (mkD c.2.2) X P api reqs n rwSpec
+                fagrees m o pq && fconsistent (mkD c.2.2) api reqsP m
+              let needP := c.1.streamQuerySkipsExecuteHook && !ok { c.1 with streamQuerySkipsExecuteHook := false } c.2.1
+              let needX := c.2.1.plainPathSkipsLookup && !ok c.1 { c.2.1 with plainPathSkipsLookup := false }
+              if needP then
+                (if known.contains dynFindingId then .known dynFindingId (showFModel mK) (showFModel spec)
+                 else .viol (showFModel mK) (showFModel spec))
+              else if needX && known.contains findingId then .known findingId (showFModel mK) (showFModel spec)
+              else .viol (showFModel mK) (showFModel spec)
+            | none => .viol (showFModel mK) (showFModel spec)
+    | _, _, _, _ => .viol "bad-case" "undecodable case"
+  | _ => .viol "bad-case" "undecodable case"
+
 def judge (known : List String) (case impl : String) : JudgeOut :=
   match parse case with
-  | some (.list [.atom "case", .atom kind, .atom mode, nx, s, d, opn, vs, w, _]) =>
+  | some (.list (.atom "fcase" :: _)) => judgeForms known case impl
+  | some (.list [.atom "case", .atom kind, .atom mode, nx, s, d, opn, vs, w, .str text]) =>
     match Decode.schema? s, Decode.doc? d, Decode.optStr? opn, Decode.vars? vs, Decode.world? w, asNat? nx with
     | some S, some doc, some opName, some vars, some world, some n =>
       let req : CaseReq :=
         { S := S, doc := doc, opName := opName, vars := vars, w := world,
           parses := kind ≠ "syntax", strictValid := kind = "valid" || kind = "unknown-op",
-          fast := mode = "fast", fuel := Spec.Exec.fuelBound doc }
+          fast := mode = "fast", fuel := Spec.Exec.fuelBound doc, text := String.ofList text }
       let pinnedX : XDefects := { plainPathSkipsLookup := known.contains findingId, itemTypeAlwaysNonNull := true }
       let spec := modelRun (mkD []) {} req n
       let mK := modelRun (mkD ["u", "s", "r", "l", "i", "m"]) pinnedX req n
